@@ -6,7 +6,7 @@ CONFIGS = {
     # (capacity, readers, accept-toggle, kset)
     'C01': {'quick': [(c, r, True, 'full') for c in (3, 4, 5, 6) for r in (1, 2)] + [(3, 3, True, 'full'), (4, 3, False, 'full'), (3, 4, False, 'ends')],
             'thorough': [(c, r, True, 'full') for c in (3, 4, 5, 6, 7) for r in (1, 2)] + [(8, 1, True, 'full'), (8, 2, False, 'full')]
-                        + [(c, 3, True, 'full') for c in (3, 4, 5)] + [(6, 3, False, 'ends')] + [(3, 8, False, 'ends'), (4, 8, False, 'ends')]},
+                        + [(c, 3, True, 'full') for c in (3, 4, 5)] + [(6, 3, False, 'ends')] + [(3, 4, False, 'ends'), (4, 4, False, 'ends'), (3, 5, False, 'ends'), (3, 6, False, 'ends')]},   # 8 readers is out of reach (about 9x the states per reader: (3,6) has 12 M, (3,8) about 10^9)
     'C03': {'quick': [(c, r, True, 'full') for c in (3, 4, 5) for r in (1, 2)],
             'thorough': [(c, r, True, 'full') for c in (3, 4, 5, 6) for r in (1, 2)] + [(7, 1, True, 'full'), (4, 3, True, 'full')]},
 }
